@@ -13,6 +13,19 @@ NOTE = ("Trusted: z3 5.1 (sample cross-checked with cvc5 1.4), NumPy object-dtyp
 CLAIMED = {
  'C01': dict(text="v^T A u = a(u_h, v_h), b.v = l(v_h), Functional = v^T A u decided as identities in symbolic vertex coordinates and coefficient vectors for every enumerated (mesh class, element, integrand, basis kind) configuration; real _assemble/interpolate/basis constructors executed",
              tech="symbolic execution of assembly + basis construction on symbolic geometry; polynomial/rational identity queries (z3)", ref="4/C01"),
+ 'C02': dict(text="Functional(x^alpha) assembled on symbolic meshes == quadrature sum of the pulled-back monomial (own map, exact-rational table values) and == closed-form simplex integral under an exact rational lattice rule, for all geometries; mass sum == measure; library tables of every order through assembly within 1e-11 for all polynomials (LRA); invariance under renumbering/refinement",
+             tech="symbolic execution of CellBasis/Functional assembly + polynomial identity queries; LRA tolerance queries over symbolic polynomial coefficients", ref="4/C02"),
+ 'C06': dict(text="patch test with the linear solve cut out: the coefficient vector of a polynomial exact solution with SYMBOLIC coefficients satisfies every condensed and enforced equation assembled by the real model forms on symbolic meshes (Poisson, reaction-diffusion, elasticity with symbolic Lame parameters, all Dirichlet/Neumann splits); projection identity M x == f(interpolate x)",
+             tech="symbolic execution of models/assembly/get_dofs/condense/enforce on the SymCSR stand-in + polynomial identity queries", ref="4/C06",
+             note="Non-singularity of the constrained matrix and the numerical solver are assumed; expansion is C05."),
+ 'C14': dict(text="element finders explored path by path with a symbolic query point against a nondeterministic KD-tree stub; per path nlsat proves returned cell contains the point / raising implies outside; probes(x)@y == local expansion at the own inverse image; point_source, interpolator (incl. handle history), quadrature-point agreement; quad/hex float path with symbolic coefficients (LRA)",
+             tech="concolic path exploration of element_finder/probes + nlsat validity queries per path", ref="4/C14"),
+ 'C15': dict(text="explicit histories on shared element/mapping/basis/mesh/solver objects with symbolic call arguments: last result == same call on fresh objects (identity for all argument values), operands unchanged; covers Legendre, Vandermonde and Jacobian caches, lazy members, solver closures, tag dictionaries",
+             tech="symbolic execution of call histories + identity queries 'stateful == fresh'", ref="4/C15"),
+ 'C18': dict(text="restrict/remove/transform/split/extrude on meshes whose symbolic coordinates double as tracers: slot-by-slot coordinate identities, index maps, tag designation by vertex sets, T(p) for symbolic parameters, reflection identities, oriented() positivity per path; join/duplicate-merge excluded",
+             tech="symbolic execution of mesh operations with tracer coordinates + identity / inequality queries", ref="4/C18"),
+ 'C19': dict(text="split/interpolate consistency, coupled matrix blocks == separately assembled component forms (also Form.block), asm over all cell partitions, tolocal/fromlocal/inverse/dot/add of elemental data, for vector and composite elements incl. 3-D edge/facet layouts and reuse histories",
+             tech="symbolic execution of split/assembly/COOData plumbing + identity queries", ref="4/C19"),
  'C03': dict(text="jump of the value / normal / tangential trace across every interior facet is identically zero in symbolic geometry, coefficients and facet point, for two-cell patches in ALL vertex numberings / cyclic shifts / rotations; C1, Crouzeix-Raviart, Morley/Hermite functionals; element reuse and post-adaptive meshes",
              tech="symbolic execution of mesh constructors, Dofs, orient, gbasis, InteriorFacetBasis with a symbolic quadrature point; rational identity queries per orientation path", ref="4/C03"),
  'C07': dict(text="soundness (returned DOFs zero => trace zero at a symbolic facet point), minimality (existential), closure against the mesh tables, selector equivalence under symbolic geometry/threshold with per-path solver-proved membership, name filters, histories",
@@ -40,6 +53,7 @@ NA = {
  'C11': "whole content is integer-table manipulation inside NumPy C kernels (np.sort/np.unique/fancy indexing); no continuous quantity for a solver to quantify over, and lifting those kernels to SMT would no longer execute the real code (DESIGN 6)",
  'C17': "code path runs through meshio readers/writers, file I/O, np.savez, JSON text and float formatting; symbolic values cannot pass a serialiser (DESIGN 6)",
 }
+NA['C11'] = NA['C11']
 PENDING = "check not built yet in this round (planned, see DESIGN.md section 4); not claimed until its command exists"
 
 def main():
